@@ -53,7 +53,13 @@ PROPS["C09"] = {
              "to the listed signatures), plus directed pairs of HistogramValue / ExpHistogramValue / PointValue / Point "
              "with the same data and different hidden state for every presence pattern (all present, all absent, mixed): "
              "IsEqual, Cmp = 0 both ways, Clone keeps presence (the oracles of the repaired clone-loses-optional-presence "
-             "and cmp-stale-optional), (c) mutation attempts on frozen Resource/Scope/Metric, (d) random histories of "
+             "and cmp-stale-optional), (c) frozen Resource/Scope/Metric (built by setters: modified bits already set; "
+             "Init only: no bit set; filled by CopyFrom; Clone() of a built value; every other round with containers "
+             "nested 4-5 deep): EVERY single mutating call of the public API on the struct and on everything reachable "
+             "through its getters (struct Set<F>/CopyFrom, multimap SetKey/SetValue/EnsureLen(n+-1)/CopyFrom, oneof "
+             "SetType(k)/Set<Alt>/CopyFrom, array Append/EnsureLen(n+-1)/CopyFromSlice, the struct's CopyFrom with a "
+             "source differing in one member) is made on a fresh frozen subject and on an unfrozen twin: a call that "
+             "changes the twin MUST panic on the frozen subject, which must be unchanged in every case, (d) random histories of "
              "mutate/CopyFrom/Clone/compare over three variables with an aliasing check after every step; op lines "
              "(prim/cmp/eq/clone/copy) are replayed on the Lean model; a value case is non-trivial when its canonical dump "
              "nests at least two levels (or one level with more than 24 characters); a history is non-trivial with >= 8 "
@@ -79,24 +85,26 @@ PROPS["C09"] = {
 }
 
 PROPS["C09"]["level_text"] = (
-    "Theorems (Stef/Props/C09.lean), all for ALL values (every float bit pattern, every shape, optional fields present "
-    "or absent with any stale stored value, nil dict pointers): each regenerated comparator (uint64, int64, bool, float64 "
-    "by IEEE totalOrder key, string/bytes) is a total order (reflexive-zero, antisymmetric, transitive, =0 iff "
-    "identical); generic lifting theorem cmp_total_order: leaf total order => the generated structural Cmp over ANY "
-    "record tree (struct with optional presence, oneof, array, multimap, nil dict pointer) is reflexive-zero, "
-    "antisymmetric, transitive and Cmp=0 iff the trees hold the same data (`data` erases the values STORED in absent "
-    "optional fields: hidden state; on trees without absent optionals Cmp=0 iff identical, cmp_zero_identical); "
-    "cmp_prim_total_order: the same over the real primitives, no hypothesis; IsEqual iff same data; "
-    "cmp_zero_iff_isEqual: Cmp=0 iff IsEqual; clone_equal, copyNew_equal: Clone / copyToNew results hold the source's "
-    "data, are IsEqual to it and compare 0, no hypothesis; copyFrom_equal: the same for CopyFrom over every prior "
-    "destination. Until /repo 82431a4 Clone dropped optional presence and Cmp<Struct> read stored values of absent "
-    "optionals (clone_equal and `IsEqual => Cmp=0` were refuted from witnesses and only `_partial` versions held); the "
-    "model follows the fix and both are proved in full. Still refuted from a witness: copyFrom_equal without its "
-    "hypothesis (copy<Multimap> guards primitive keys/values with Go's != : a -0.0 float directly used as multimap "
-    "key/value is not copied over +0.0; transcription of multimap.go.tmpl, unreachable in go/otel). Harness only "
-    "(model has no heap): copy independence, aliasing in histories, frozen values reject mutation (known findings "
-    "frozen-silent-mutation, frozen-mutation-before-panic). Tied to the code by regenerated comparators and op-for-op "
-    "differential runs (cmp/eq/clone/copy) on all 30 otelstef types.")
+    "Theorems (Stef/Props/C09.lean), all for ALL values, none with an excluding hypothesis (every float bit pattern, "
+    "every shape, optional fields present or absent with any stale stored value, nil dict pointers): each regenerated "
+    "comparator (uint64, int64, bool, float64 by IEEE totalOrder key, string/bytes) is a total order (reflexive-zero, "
+    "antisymmetric, transitive, =0 iff identical); generic lifting theorem cmp_total_order: leaf total order => the "
+    "generated structural Cmp over ANY record tree (struct with optional presence, oneof, array, multimap, nil dict "
+    "pointer) is reflexive-zero, antisymmetric, transitive and Cmp=0 iff the trees hold the same data (`data` erases the "
+    "values STORED in absent optional fields: hidden state; on trees without absent optionals Cmp=0 iff identical, "
+    "cmp_zero_identical); cmp_prim_total_order: the same over the real primitives; IsEqual iff same data; "
+    "cmp_zero_iff_isEqual: Cmp=0 iff IsEqual; clone_equal, copyNew_equal, copyFrom_equal: Clone / copyToNew / CopyFrom "
+    "(over every prior destination) results hold the source's data, are IsEqual to it and compare 0. Nothing is "
+    "refuted any more: the model follows /repo 82431a4 (Clone keeps optional presence, Cmp skips absent optionals) and "
+    "d9a1aae (copy<Multimap> compares primitive keys/values with pkg.<T>Equal: copyFrom_equal lost its `no -0.0 float "
+    "directly as multimap key/value` hypothesis, copyFrom_equal_false is gone; no Go != / == on a field value is left "
+    "in the struct/oneof/array/multimap templates; go/otel has no float-keyed/valued multimap, so this last change is "
+    "tied to the code by transcription only). Harness only (the model is value-level, it has no heap): copy "
+    "independence, aliasing in histories, frozen values reject mutation - since 1d57428 a panic is required for "
+    "every call that would change a frozen value; residual genuine defects recorded as findings: "
+    "frozen-nested-multimap-silent-mutation, frozen-clone-silent-mutation, frozen-copyfrom-mutation-before-panic. "
+    "Tied to the code by regenerated comparators and op-for-op differential runs (cmp/eq/clone/copy) on all 30 "
+    "otelstef types.")
 
 RECV_TB = COMMON_TB + [
     "Impl model lean/Stef/Receiver.lean is a hand transcription of otelcol/internal/stefreceiver/stef.go (onStream) and "
